@@ -66,7 +66,7 @@ def check(chk, facts):
                        "error sink handed to %s designates %s" % (c.split("::")[-1], det), where=f.where(t[1].get("l")), fn=f.name,
                        key="%s:thread:%s:%s" % (rule, short(name), c.split("::")[-1]),
                        sample={"fn": short(name).split("typecheck::")[-1], "callee": c.split("::")[-1], "sink": [r[0], r[2]]} if n % 9 == 0 else None)
-    chk.floor(rule, "error-sink hand-offs in the typechecker", n, 74)
+    chk.floor(rule, "error-sink hand-offs in the typechecker", n, 67)
     # the creator returns its vector in every failing outcome
     for gname, locs in sorted(creators.items()):
         g = facts.fns[gname]
